@@ -176,7 +176,7 @@ def order_correspondence(ctx):
 
 
 # ---- the property, directly -----------------------------------------------------------------------------------
-def run_real(order, L, dt, k_total, jumps, state_name, warm=None, traj=None, parallel=False):
+def run_real(order, L, dt, k_total, jumps, state_name, warm=None, traj=None, parallel=False, zero_procs=False):
     from mqt.yaqs import simulator
     from mqt.yaqs.core.data_structures.networks import MPO, MPS
     from mqt.yaqs.core.data_structures.noise_model import NoiseModel
@@ -205,7 +205,9 @@ def run_real(order, L, dt, k_total, jumps, state_name, warm=None, traj=None, par
             else:
                 os.environ["YAQS_MAX_WORKERS"] = saved
         return np.array([np.real(np.asarray(o.trajectories)) for o in obs]), len(p.times)  # (observable, trajectory, column)
-    nm = NoiseModel([], scheduled_jumps=[jump_dict(j, dt) for j in jumps])
+    # zero_procs: the schedule rides on a noise model whose stochastic channels are all switched off (the zero point of a strength sweep)
+    procs = [{"name": "pauli_z", "sites": [0], "strength": 0.0}, {"name": "lowering", "sites": [L - 1], "strength": 0.0}] if zero_procs else []
+    nm = NoiseModel(procs, scheduled_jumps=[jump_dict(j, dt) for j in jumps])
     simulator.run(MPS(L, state=state_name), MPO.ising(L, 1.0, 0.7), p, nm, parallel=False)
     return np.array([np.real(o.results) for o in obs]), len(p.times)
 
@@ -254,7 +256,7 @@ def run_dense(L, dt, k_total, jumps, state_name):
 
 def jump_oracle(args):
     real, n = run_real(args["order"], args["L"], args["dt"], args["k_total"], args["jumps"], args["state"], warm=args.get("warm"),
-                       traj=args.get("traj"), parallel=bool(args.get("parallel")))
+                       traj=args.get("traj"), parallel=bool(args.get("parallel")), zero_procs=bool(args.get("zero_procs")))
     if n != args["k_total"] + 1:
         return None  # grid length is C15's business
     ref = run_dense(args["L"], args["dt"], args["k_total"], args["jumps"], args["state"])
@@ -277,7 +279,8 @@ def jump_oracle(args):
         kmin = min(j[0] for j in args["jumps"])
         when = "before" if bad[0] < kmin else "at/after"
         return (f"order {args['order']}: results differ from 'apply once at t_k' by {err[bad[0]]:.3e} at column {bad[0]} "
-                f"({when} the scheduled index {kmin})" + (f"; the parameter object had served a run with the schedule {args['warm']} before" if args.get("warm") is not None else ""))
+                f"({when} the scheduled index {kmin})" + ("; the noise model also lists stochastic channels of strength 0" if args.get("zero_procs") else "")
+                + (f"; the parameter object had served a run with the schedule {args['warm']} before" if args.get("warm") is not None else ""))
     return None
 
 
@@ -299,6 +302,9 @@ def search(ctx):
         L = 3
         for order in (1, 2):
             args = dict(order=order, L=L, dt=0.02, k_total=4, jumps=jumps, state="x+")
+            if (k + order) % 3 == 0:
+                args["zero_procs"] = True
+                ctx.count("dense_schedule_next_to_switched_off_channels")
             why = jump_oracle(args)
             ctx.case(nontrivial_key=("directed", k, order))
             ctx.count("dense_directed")
@@ -340,6 +346,9 @@ def search(ctx):
         if any(j[2] == "lowering" for j in jumps) and state == "zeros":
             state = "x+"
         args = dict(order=order, L=L, dt=0.05 if L == 2 else 0.02, k_total=k_total, jumps=jumps, state=state)
+        if i % 4 == 2:
+            args["zero_procs"] = True
+            ctx.count("dense_schedule_next_to_switched_off_channels")
         if i % 3 == 1:
             args["warm"] = [] if i % 2 else [(max(1, (jumps[0][0] + 1) % (k_total + 1)), [0], "x")]
         try:
